@@ -49,8 +49,11 @@ type Finding struct {
 	Property  string `json:"property"`
 	Status    string `json:"status"` // known | fixed
 	Signature string `json:"signature"`
-	Commit    string `json:"commit,omitempty"`
-	What      string `json:"what"`
+	// Signatures: an explicit list (used instead of a wildcard when the failing inputs of one root cause
+	// are many: anything outside the list is a new violation)
+	Signatures []string `json:"signatures,omitempty"`
+	Commit     string   `json:"commit,omitempty"`
+	What       string   `json:"what"`
 }
 
 func LoadFindings() []Finding {
@@ -147,6 +150,18 @@ func (c *Collector) AddInt(k string, n int) {
 }
 
 // matchSig: '*' in a known-findings pattern matches any run of characters.
+func (f Finding) matches(sig string) bool {
+	if f.Signature != "" && matchSig(f.Signature, sig) {
+		return true
+	}
+	for _, s := range f.Signatures {
+		if s == sig {
+			return true
+		}
+	}
+	return false
+}
+
 func matchSig(pat, sig string) bool {
 	parts := strings.Split(pat, "*")
 	if len(parts) == 1 {
@@ -188,7 +203,7 @@ func (c *Collector) Finish() int {
 		v := c.bySig[s]
 		isKnown := false
 		for fi, f := range findings {
-			if f.Property == v.Property && f.Status == "known" && matchSig(f.Signature, s) {
+			if f.Property == v.Property && f.Status == "known" && f.matches(s) {
 				isKnown = true
 				k := knownBy[fi]
 				if k == nil {
